@@ -253,9 +253,10 @@ class VectorContainer:
         return super().__getattribute__(name)
 
     def __setattr__(self, name: str, value: Union[Any, Sequence[Any]]) -> None:
-        # Error on attempt to add an attribute if `strict=True`
+        # Error on attempt to add an attribute if `strict=True` (other than to
+        # set class-level properties e.g. `strict`, `values`)
         if (
-            name != 'strict'
+            not isinstance(getattr(type(self), name, None), property)
             and self.__dict__['_strict']
             and name not in self.__dict__['index']
             and name not in self.__dict__['_attributes']  # TODO: Check inclusion here
